@@ -248,12 +248,19 @@ def check_factories(rng, viol, counts):
 
 
 def cases(tier, seed):
+    from checks.insitu import insitu_cases
+
+    yield from insitu_cases(tier, seed)
     n = 64 if tier == "quick" else 1600
     for i in range(n):
         yield {"label": "models", "seed": seed * 1000003 + i, "n": 300, "epoch0": i % 16 == 15}
 
 
 def run_case(case):
+    if case.get("kind") == "insitu":
+        from checks.insitu import run_insitu
+
+        return run_insitu(case, PROP)
     from aws_durable_execution_sdk_python import execution as E
 
     rng = random.Random(case["seed"])
@@ -301,4 +308,4 @@ if __name__ == "__main__":
     sys.exit(harness.main_for("checks.c20", PROP, "exploration", RULE,
                               ["the normal form N is the only equality relaxation; error objects are generated with at least one field set",
                                "an entirely empty WaitDetails/ChainedInvokeDetails object is treated as equal to an absent one (no protocol field is carried)"],
-                              {"operations_checked": 5000, "updates_checked": 5000, "factory_calls_checked": 500}))
+                              {"operations_checked": 5000, "updates_checked": 5000, "factory_calls_checked": 500, "insitu_contract_evaluations_update_to_dict": 300}))
